@@ -16,7 +16,7 @@ MAJORS = (0, 1, 2, 3, 4, 2**32 - 1)
 MINORS = (0, 9, 10, 11)
 EXPECTED = "mydev"
 ORDERS = ("two-chunks", "one-chunk", "bytewise", "connect-first", "verdict-twice", "hello-twice", "one-chunk+DR", "then-DR")
-NOISE_NAMES = ("absent", "equal", "different", "empty", "case", "not-utf8")
+NOISE_NAMES = ("absent", "equal", "different", "empty", "case", "not-utf8", "equal+mac", "different+mac")  # +mac: a further field behind the name
 HELLO_NAMES = ("empty", "equal", "other", "case", "longer")  # near misses: names are compared exactly
 
 
@@ -29,11 +29,14 @@ def one_case(c: dict[str, Any]) -> dict[str, Any]:
     exp_name = EXPECTED if c["expected"] else None
     hello_name = {"empty": "", "equal": EXPECTED, "other": "otherdev", "case": "MyDev", "longer": "mydev1"}[c["name"]]
     nname = {"absent": None, "equal": EXPECTED, "different": "otherdev", "empty": "", "case": "MYDEV",
-             "not-utf8": EXPECTED.encode() + b"\xff"}[c.get("noise_name", "equal")]
+             "not-utf8": EXPECTED.encode() + b"\xff"}[c.get("noise_name", "equal").replace("+mac", "")]
     via_setter = c.get("via") == "setter"
     w = ConnWorld(noise=noise, client=True, expected_name=None if via_setter else exp_name, password="pw" if c["password"] else None,
                   login=c["login"], device_name=nname if noise else hello_name)
     stops: list[bool] = []
+    if noise and c.get("noise_name", "").endswith("+mac"):
+        assert w.ndev is not None
+        w.ndev.mac = "aabbccddeeff"
     try:
         async def on_stop(expected: bool) -> None:
             stops.append(bool(expected))
